@@ -7,6 +7,8 @@ import (
 	"bytes"
 	stdjson "encoding/json"
 	"fmt"
+	"github.com/tdewolff/parse/v2"
+	phtml "github.com/tdewolff/parse/v2/html"
 	"os"
 	"regexp"
 	"strings"
@@ -184,6 +186,94 @@ func scripts(s string) (js []string, styles []string, ok bool) {
 	return js, styles, true
 }
 
+// rawStructure lists the raw-text element boundaries and comments a lexer sees in an HTML text.
+func rawStructureStd(s string) []string {
+	var out []string
+	z := xhtml.NewTokenizer(strings.NewReader(s))
+	foreign := 0
+	for {
+		tt := z.Next()
+		if tt == xhtml.ErrorToken {
+			return out
+		}
+		switch tt {
+		case xhtml.CommentToken:
+			if foreign == 0 {
+				out = append(out, "!")
+			}
+		case xhtml.StartTagToken, xhtml.EndTagToken, xhtml.SelfClosingTagToken:
+			nb, _ := z.TagName()
+			n := string(nb)
+			if n == "svg" || n == "math" {
+				if tt == xhtml.StartTagToken {
+					foreign++
+				} else if tt == xhtml.EndTagToken && foreign > 0 {
+					foreign--
+				}
+				continue
+			}
+			if foreign == 0 && (n == "script" || n == "style" || n == "textarea" || n == "title") {
+				if tt == xhtml.EndTagToken {
+					out = append(out, "-"+n)
+				} else {
+					out = append(out, "+"+n)
+				}
+			}
+		}
+	}
+}
+
+func rawStructureDep(s string) []string {
+	var out []string
+	l := phtml.NewLexer(parse.NewInputString(s))
+	for {
+		tt, _ := l.Next()
+		switch tt {
+		case phtml.ErrorToken:
+			return out
+		case phtml.CommentToken:
+			out = append(out, "!")
+		case phtml.StartTagToken, phtml.EndTagToken:
+			n := strings.ToLower(string(l.Text()))
+			if n == "script" || n == "style" || n == "textarea" || n == "title" {
+				if tt == phtml.EndTagToken {
+					out = append(out, "-"+n)
+				} else {
+					out = append(out, "+"+n)
+				}
+			}
+		}
+	}
+}
+
+// lexersDisagree: the HTML lexer of the dependency and the HTML Standard tokenizer (x/net) see
+// different raw-text element boundaries or comments in this INPUT. Then the minifier works on
+// a different document than a browser from the start (malformed markup: unterminated quotes,
+// junk in tags, abruptly closed comments, `</script` followed by another character).
+func lexersDisagree(in []byte) bool {
+	defer func() { recover() }()
+	a, b := rawStructureStd(string(in)), rawStructureDep(string(in))
+	return strings.Join(a, " ") != strings.Join(b, " ")
+}
+
+// htmlInputClass names the class of malformed markup in an HTML input on which the dependency's
+// lexer is known to deviate from the HTML Standard ("" if none): part of the failure kind, so
+// that only these inputs are covered by the corresponding known findings.
+func htmlInputClass(in []byte) string {
+	switch {
+	case rawEndPrefix.Match(in):
+		// the dependency's HTML lexer ends a raw-text element at `</script` followed by ANY
+		// character (and lower-cases the text it scanned); the Standard requires white space, `/` or `>`
+		return ":input-has-raw-end-tag-prefix"
+	case bytes.Contains(in, []byte("<!-->")) || bytes.Contains(in, []byte("<!--->")):
+		// complete (abruptly closed) comments for a browser; the dependency's lexer reads on to the next `-->`
+		return ":input-has-abruptly-closed-comment"
+	case lexersDisagree(in):
+		return ":lexers-disagree-on-input"
+	}
+	return ""
+}
+
 // slug turns the head of an error message into a short class name for the failure kind.
 func slug(msg string) string {
 	if i := strings.Index(msg, " on line"); i >= 0 {
@@ -294,16 +384,7 @@ func (v validator) CheckOne(m *minify.M, typ string, in []byte, pristine bool) (
 					return n
 				}
 				if ne(ij) != ne(oj) || ne(is) != ne(os) {
-					reason = "raw-text-end-moved"
-					if rawEndPrefix.Match(in) {
-						// the dependency's HTML lexer ends a raw-text element at `</script` followed by
-						// ANY character; the HTML Standard requires white space, `/` or `>` there
-						reason += ":input-has-raw-end-tag-prefix"
-					} else if bytes.Contains(in, []byte("<!-->")) || bytes.Contains(in, []byte("<!--->")) {
-						// `<!-->` and `<!--->` are complete (abruptly closed) comments for a browser; the
-						// dependency's lexer reads on to the next `-->`
-						reason += ":input-has-abruptly-closed-comment"
-					}
+					reason = "raw-text-end-moved" + htmlInputClass(in)
 					valid, why = false, fmt.Sprintf("the input has %d script and %d style elements, the output %d and %d: the end of a raw-text element moved", len(ij), len(is), len(oj), len(os))
 				}
 			}
@@ -330,7 +411,7 @@ func (v validator) CheckOne(m *minify.M, typ string, in []byte, pristine bool) (
 							}
 							n++
 						}
-						reason = "embedded-script-invalid"
+						reason = "embedded-script-invalid" + htmlInputClass(in)
 						valid, why, inputValid = false, fmt.Sprintf("embedded script %q: %s", trunc(s), e), inOK
 						break
 					}
